@@ -382,6 +382,12 @@ def r02d(ck, prog):
                     ck.violation("R02d", "R02d/%s/parallel-shape" % F.name, where,
                                  "the parallel region's body is executed by every thread (no omp single): replicated execution "
                                  "of %s" % (b.text()[:50] if b is not None else "?"), prog.config)
+            elif kind.split()[0] in ("for", "single", "sections", "taskloop") and not any(
+                    "omp" in a.d and a.d["omp"].startswith("parallel") for a in d.ancestors()):
+                ck.violation("R02d", "R02d/%s/orphaned-%s" % (F.name, kind.split()[0]), site(prog, d),
+                             "orphaned `omp %s` in %s: it binds to whatever parallel region is active in the caller; inside the "
+                             "task tree only a slice of the iterations runs (and worksharing inside a task is non-conforming)" % (kind, F.name),
+                             prog.config)
             elif kind in FORBIDDEN_DIRECTIVES:
                 ck.violation("R02d", "R02d/%s/%s" % (F.name, kind), site(prog, d), "omp %s is not part of the fork-join discipline the argument relies on" % kind, prog.config)
         for c in F.body.calls(*OMP_API_FORBIDDEN):
